@@ -141,8 +141,29 @@ def main(run):
         if missing:
             run.violation(f'derive|{path}', f'{adt["file"]}:{adt["line"]} {path} does not derive {sorted(missing)}: eq/cmp/hash of the decomposition would not be field-wise')
     # Borrow hash shapes
+    # Path (both families): eq and cmp are hand-written algorithms over (is_absolute, normalised segments...). They are decided SEMANTICALLY
+    # against that key (cmpsem: abstract execution per kind combination, one loop iteration, whole-sequence forms) — which also makes the two
+    # families agree whatever their texts look like; their ordering shape below is then that key by decision, not by reading their calls
+    from .. import cmpsem
+    path_ok = {}
+    for famn in ('uri', 'iri'):
+        okf = True
+        for tr, kind in (('std::cmp::Ord', 'cmp'), ('std::cmp::PartialEq', 'eq')):
+            fn = f'<{famn}::path::Path as {tr}>::{kind}'
+            probs, nv = cmpsem.check_fn(P, fn, kind)
+            run.count('path_comparison_verdicts', nv)
+            fb = P.body(fn)
+            for pr in probs:
+                okf = False
+                run.violation(f'path-{kind}|{famn}|{pr[:90]}', f'{P.where(fb) if fb else fn} {fn}: {pr} — the key of a path is (is_absolute, normalised segments...), false < true, a proper prefix is Less')
+        path_ok[famn] = okf
+    run.floor('path_comparison_verdicts', 16, 'paths / loop iterations of Path::eq and Path::cmp (both families) given a verdict')
+    canon = {}
+    for famn in ('uri', 'iri'):
+        if path_ok[famn]:
+            canon[f'{famn}::path::Path'] = (lambda sh, depth, famn=famn: ('seq', (('prim', 'bool'), ('iter', sh.of_type(f'{famn}::path::segment::Segment', depth + 1)))))
     S = keys.Shapes(P, ctx.owned)
-    SO = keys.Shapes(P, ctx.owned, 'cmp::Ord', 'cmp', erase_option=True)
+    SO = keys.Shapes(P, ctx.owned, 'cmp::Ord', 'cmp', erase_option=True, canon=canon)
     lib = set(lang.TYPE_TABLE) | set(ctx.owned) | {'uri::scheme::data::DataUrl', 'uri::scheme::data::DataUrlBuf'}
     for im in P.impls:
         tp = im['trait_path'] or ''
